@@ -22,7 +22,7 @@ RULE = ('descriptor = seeded batch of scenarios; scenario = 1..8 distinct regist
         'header of those ports dispatched after every step.')
 ASSUMPTIONS = ['matching rule: (header port & port mask) == registered port and (header channel & channel mask) == '
                'registered channel']
-REQUIRED = ['mon.scenarios_with_a_second_dispatcher_in_the_process', 'mon.packets_without_payload', 'mon.removals_of_absent_registrations', 'mon.packets', 'mon.must_deliveries', 'mon.mutations_executed', 'mon.raising_callbacks',
+REQUIRED = ['mon.received_packets_readdressed_by_a_callback', 'mon.scenarios_with_a_second_dispatcher_in_the_process', 'mon.packets_without_payload', 'mon.removals_of_absent_registrations', 'mon.packets', 'mon.must_deliveries', 'mon.mutations_executed', 'mon.raising_callbacks',
             'mon.caller_calls', 'mon.self_removals', 'mon.shared_callback_removals',
             'mon.shared_callback_multi_pattern_deliveries', 'mon.deliveries_through_the_public_wrappers']
 
@@ -166,6 +166,10 @@ def run_scenario(ctx, regs, script, raising, headers, label):
             log.append((pk._uid, rid))
             invoc[rid] = invoc.get(rid, 0) + 1
             failed = None
+            if (pk._uid * 5 + rid) % 11 == 0:
+                # the callback re-uses the packet it was handed for its answer: new address, sent off
+                pk.set_header((pk.port + 3) % 16, (pk.channel + 1) % 4)
+                state['readdressed'] = state.get('readdressed', 0) + 1
             for (actor, nth, op, arg) in script:
                 if actor == rid and nth == invoc[rid]:
                     state['mut'] += 1
@@ -243,7 +247,7 @@ def run_scenario(ctx, regs, script, raising, headers, label):
         if len(pk.data) == 0:
             ctx.count('mon.packets_without_payload')
         ctx.evals()
-        h = pk.header
+        h = headers[pk._uid] | 0x0C       # the header as it was received (a callback may have re-addressed the packet object)
         got = [rid for (uid, rid) in log[before:]]
         if died is not None:
             ctx.violate('dispatch:dispatcher-died:%s' % type(died).__name__,
@@ -323,6 +327,7 @@ def run_scenario(ctx, regs, script, raising, headers, label):
     ctx.count('mon.mutations_executed', state['mut'])
     ctx.count('mon.self_removals', state['selfrem'])
     ctx.count('mon.removals_of_absent_registrations', state.get('absent_removals', 0))
+    ctx.count('mon.received_packets_readdressed_by_a_callback', state.get('readdressed', 0))
     if state.get('library_call_raised'):
         ctx.count('obs.add_or_remove_call_raised_inside_a_callback')
     if raising is not None and invoc.get(raising):
